@@ -29,6 +29,7 @@ PARTIAL = ("Proved in Coq, for ALL worlds/vectors/operands (no bounds), about th
            "outside the statement (the strict test fails for equal elements; storages differ there).")
 KNOWN_PROPOSED = os.path.join(vlib.ROOT, "corpus/C03/known_findings_proposed.json")
 CORPUS = os.path.join(vlib.ROOT, "corpus/C03/corpus.jsonl")
+SPECIAL_CORPUS = os.path.join(vlib.ROOT, "corpus/C03/special.jsonl")
 
 
 def known_list():
@@ -114,6 +115,53 @@ def known(ctx, binary):
             ctx.notes.append("known finding %s no longer reproduces: %s" % (f["id"], k["detail"]))
 
 
+def special(ctx, binary):
+    """Go-level differential run on non-finite values and Real derivatives (harness/c03/special.go): every
+    storage combination against the all-dense run.  Differences matched narrowly by a recorded class are
+    printed as KNOWN-FINDING (once per class), everything else is a VIOLATION with a replayable witness."""
+    n = 3000 if ctx.tier == "quick" else 30000
+    rc, out = vlib.run_harness(ctx, binary, n, extra="special:" + SPECIAL_CORPUS, timeout=600)
+    sp = os.path.join(ctx.dir, "special.json")
+    if rc != 0 or not os.path.exists(sp):
+        ctx.violation({"obligation": "C03 special run", "log": out[-3000:]}, False,
+                      "harness failed on the implementation (crash in the special-value / derivative differential run)")
+        return
+    r = json.load(open(sp))
+    probes = r.get("probes") or []
+    ctx.cov.setdefault("extra", {})["special"] = {
+        "draws": r["draws"], "corpus_cases": r["histogram"].get("corpus", 0), "runs": r["runs"],
+        "comparisons": r["comparisons"], "elements_compared": r["elements_compared"],
+        "per_op": r["per_op"], "per_type": r["per_type"], "histogram": r["histogram"],
+        "panic_outcomes": r["panic_outcomes"],
+        "sign_of_zero_differences_not_judged": r["sign_of_zero_differences_not_judged"],
+        "order_or_N_differences_not_judged": r["order_or_N_differences_not_judged"],
+        "known_counts": r["known_counts"],
+        "known_witnesses": {k: v["text"] for k, v in (r.get("known") or {}).items()},
+        "failures": r["failure_count"], "failure_classes": r.get("failure_classes") or {},
+        "probes": [{"q": p["question"], "observed": p["observed"]} for p in probes], "rule": r["rule"]}
+    ctx.log("special: %d draws, %d comparisons, %d known-class differences in %d classes, %d unmatched" % (
+        r["draws"], r["comparisons"], sum(r["known_counts"].values()), len(r["known_counts"]), r["failure_count"]))
+    listed = {f["id"]: f for f in known_list()}
+    hit = dict(r["known_counts"])
+    if any(p["finding_reproduces"] for p in probes if p["id"] == "C03-MDOTV-EMPTY"):
+        hit.setdefault("C03-MDOTV-EMPTY", 1)
+    for fid in sorted(hit):
+        w = (r.get("known") or {}).get(fid)
+        what = listed[fid]["what"] if fid in listed else "(class matched in harness/c03/special.go, not listed yet)"
+        ctx.known_finding(fid, what + (" | witness: " + w["text"] if w else ""))
+    for fid in sorted(listed):
+        if listed[fid].get("match", {}).get("site", "").startswith("special:") and fid not in hit:
+            ctx.notes.append("known finding %s no longer reproduces in the special run" % fid)
+    seen = set()
+    for f in r["failures"]:
+        key = (f["special"]["op"], f["diffs"][0]["obj"] if f["diffs"] else "", f["special"]["type"])
+        if key in seen or len(seen) >= 3:
+            continue
+        seen.add(key)
+        ctx.violation({"special": f["special"], "diffs": f["diffs"], "text": f["text"]}, True,
+                      "result depends on storage (non-finite values / derivatives): " + f["text"])
+
+
 def run(ctx):
     ctx.cov["trusted_base"] = vlib.TRUSTED_BASE_COMMON + [
         "hook /repo/verif_c11.go (C11's read-only dump of the private map and AVL index keys of sparse vectors)",
@@ -135,6 +183,7 @@ def run(ctx):
     nbad = len(bad["cases"]) + len(bad["mcases"]) if bad else 0
     broken = [f["target"] for f in failures] + (["correspondence C03.Corr.check"] if nbad else [])
     known(ctx, binary)
+    special(ctx, binary)
     h0 = hunt(ctx, binary, bad, broken)
     if h0:
         # (the oracle does not judge the RESULT of Equals calls with epsilon <= 0: outside the statement)
@@ -157,6 +206,13 @@ def replay(ctx, path):
     binary, blog = vlib.build_harness("c03")
     if binary is None:
         print(blog); return 2
+    if "special" in rp:
+        vlib.sh([binary, "--extra", "special", "--replay", path, "--out", ctx.dir], env=vlib.go_env())
+        res = json.load(open(os.path.join(ctx.dir, "special_replay.json")))
+        print("special case: %s" % res["text"])
+        print("differences between storages: %d, matched by recorded classes %s, unmatched: %d" % (
+            res["differences"], res["known_ids"], res["unmatched"]))
+        return 1 if res["fails"] else 0
     if "mcase" in rp:
         hin = os.path.join(ctx.dir, "hunt_in.json")
         case = dict(rp["mcase"]); case.pop("outs", None)
